@@ -55,14 +55,33 @@ type Cluster struct {
 	started time.Time
 }
 
+var (
+	portMu   sync.Mutex
+	portUsed = map[int]bool{}
+)
+
+// freePort asks the kernel for a free TCP port and never hands out the same one twice in this
+// process (several clusters are started side by side).
 func freePort() int {
-	for i := 0; i < 50; i++ {
+	portMu.Lock()
+	defer portMu.Unlock()
+	for i := 0; i < 200; i++ {
 		l, err := net.Listen("tcp", "127.0.0.1:0")
 		if err != nil {
 			continue
 		}
 		p := l.Addr().(*net.TCPAddr).Port
+		// memberlist needs the same port on UDP
+		u, uerr := net.ListenPacket("udp", net.JoinHostPort("127.0.0.1", strconv.Itoa(p)))
 		l.Close()
+		if uerr != nil {
+			continue
+		}
+		u.Close()
+		if portUsed[p] {
+			continue
+		}
+		portUsed[p] = true
 		return p
 	}
 	panic("no free port")
@@ -178,14 +197,61 @@ func (c *Cluster) Live() []*Member {
 	return out
 }
 
+// StartTogether starts n members at once (needed when MemberCountQuorum > 1: a member does not
+// finish starting before it sees enough peers) and waits for all of them.
+func StartTogether(o Options, n int) (*Cluster, error) {
+	c := New(o)
+	type res struct {
+		m   *Member
+		err error
+	}
+	first := c.newConfig()
+	seed := net.JoinHostPort("127.0.0.1", strconv.Itoa(first.MemberlistConfig.BindPort))
+	ch := make(chan res, n)
+	for i := 0; i < n; i++ {
+		cfg := first
+		if i > 0 {
+			cfg = c.newConfig()
+			cfg.Peers = []string{seed}
+		}
+		go func(cfg *config.Config) {
+			m, err := c.startMember(cfg)
+			ch <- res{m, err}
+		}(cfg)
+		if i == 0 {
+			time.Sleep(150 * time.Millisecond) // let the seed's memberlist come up first
+		}
+	}
+	for i := 0; i < n; i++ {
+		r := <-ch
+		if r.err != nil {
+			return nil, r.err
+		}
+	}
+	sort.Slice(c.Members, func(i, j int) bool {
+		return c.Members[i].Cfg.MemberlistConfig.BindPort == first.MemberlistConfig.BindPort && i != j
+	})
+	for i, m := range c.Members {
+		m.Index = i
+	}
+	if err := c.WaitStable(15*time.Second, true); err != nil {
+		return nil, err
+	}
+	return c, nil
+}
+
 // AddMember starts one more member, lets it join and waits until it is bootstrapped.
 func (c *Cluster) AddMember() (*Member, error) {
-	c.mu.Lock()
-	defer c.mu.Unlock()
 	cfg := c.newConfig()
+	c.mu.Lock()
 	for _, m := range c.Live() {
 		cfg.Peers = append(cfg.Peers, net.JoinHostPort("127.0.0.1", strconv.Itoa(m.Cfg.MemberlistConfig.BindPort)))
 	}
+	c.mu.Unlock()
+	return c.startMember(cfg)
+}
+
+func (c *Cluster) startMember(cfg *config.Config) (*Member, error) {
 	started := make(chan struct{})
 	var once sync.Once
 	cfg.Started = func() { once.Do(func() { close(started) }) }
@@ -196,7 +262,7 @@ func (c *Cluster) AddMember() (*Member, error) {
 	m := &Member{DB: db, Cfg: cfg, Name: net.JoinHostPort(cfg.BindAddr, strconv.Itoa(cfg.BindPort)), V: db.Verif(),
 		Index: len(c.Members), done: make(chan error, 1)}
 	go func() { m.done <- db.Start() }()
-	deadline := time.After(10 * time.Second)
+	deadline := time.After(15 * time.Second)
 	tick := time.NewTicker(5 * time.Millisecond)
 	defer tick.Stop()
 wait:
@@ -220,7 +286,10 @@ wait:
 			}
 		}
 	}
+	c.mu.Lock()
+	m.Index = len(c.Members)
 	c.Members = append(c.Members, m)
+	c.mu.Unlock()
 	return m, nil
 }
 
@@ -393,6 +462,28 @@ func (c *Cluster) Shutdown() {
 		}(m)
 	}
 	wg.Wait()
+}
+
+var bg sync.WaitGroup
+
+// ShutdownAsync shuts the cluster down in the background (drivers that start dozens of clusters do
+// not wait for every leave broadcast); WaitBackground waits for all of them.
+func (c *Cluster) ShutdownAsync() {
+	bg.Add(1)
+	go func() {
+		defer bg.Done()
+		c.Shutdown()
+	}()
+}
+
+// WaitBackground waits (bounded) for the clusters shut down with ShutdownAsync.
+func WaitBackground(d time.Duration) {
+	done := make(chan struct{})
+	go func() { bg.Wait(); close(done) }()
+	select {
+	case <-done:
+	case <-time.After(d):
+	}
 }
 
 // OwnerOf returns the live member that owns the key's partition according to m's own view, and
